@@ -733,6 +733,13 @@ class Acceptor:
                 self.hit('C11', ('swallow-queued', mi.queue[0].typ))
                 mi.queue.pop(0)
                 continue
+            # back: a queued occurrence whose dispatch leaves no record at all (enqueue_event on a contained
+            # machine is not a direct call, so an unmatched event is not reported) is consumed in order
+            if mi.queue and not self.mp and not self.visible(mi, mi.queue[0]):
+                self.hit('C04', ('invisible-dispatch', mi.name))
+                mi.queue.pop(0)
+                continue
+            self.skip_completion_retries()
             nxt = self.peek()
             if nxt is None:
                 return
@@ -747,7 +754,7 @@ class Acceptor:
                 self.hit('C04', ('dispatch-queued', mi.name, len(mi.queue), occ.api))
                 if self.mp and self.list_defers(mi, occ.typ, True) and False:
                     pass
-                res = self.step(mi, occ, 'queue' if not occ.free else 'direct')
+                res = self.step(mi, occ, self.src_of(mi, occ))
                 self.post_queued(mi, res)
             else:
                 self.check_defer_order(mi, occ)
@@ -755,6 +762,31 @@ class Acceptor:
                 self.hit('C05', ('reoffer', mi.name, tuple(mi.active), occ.typ, len(mi.deferred)))
                 res = self.step(mi, occ, 'direct')
                 self.post_queued(mi, res)
+
+    def src_of(self, mi, occ):
+        if occ.free:
+            return 'direct'
+        if not self.mp and occ.api == 'q' and mi.parent is not None:
+            return 'sub'          # back: enqueue_event stores a non-direct call
+        return 'queue'
+
+    def visible(self, mi, occ):
+        """would dispatching occ on mi leave at least one record?"""
+        if self.src_of(mi, occ) != 'sub':
+            return True           # at least no_transition
+        return self.has_candidates(mi, occ.typ)
+
+    def has_candidates(self, mi, typ):
+        for sn in mi.active:
+            st = mi.m['states'][sn]
+            if st['kind'] == 'sub' and self.sub_knows(mi.children[sn], typ) and self.has_candidates(mi.children[sn], typ):
+                return True
+            if self.candidates(mi, sn, typ):
+                return True
+        return bool(self.sm_internal(mi, typ))
+
+    def schedule_deferred_only(self, mi):
+        pass
 
     def post_queued(self, mi, res):
         self.completion_round(mi)
@@ -826,7 +858,7 @@ class Acceptor:
 
     def quiescent(self, root, op):
         """obligations at the end of a top-level operation"""
-        drains = op in ('process', 'drain') or (self.mp and op == 'start')
+        drains = op in ('process', 'drain', 'start')
         for mi in root.all():
             if mi.processing:
                 self.reject({'C12', 'C04'}, 'still-processing', '%s not processing' % mi.name)
@@ -870,7 +902,7 @@ class Acceptor:
                 continue
             mq, dq = queues[path]
             if self.mp:
-                exp_n = len(mi.queue) + len(mi.deferred)
+                exp_n = len(mi.queue) + len(mi.deferred) + len(mi.comp)
                 if mq != exp_n:
                     self.reject({'C04', 'C05'}, 'pending-count', '%s pool=%d' % (path, exp_n), rec)
             else:
@@ -994,9 +1026,6 @@ class Acceptor:
             self.enter_state(root, root.active[r], 'other', start_occ, tags)
             self.note_entered(root, r, root.active[r])
         root.processing = False
-        if not self.mp and not root.has_completion:
-            # back / back11: start() only runs the queues as part of its completion processing
-            return
         self.schedule(root, after_handled=True)
 
     def stop(self, root):
@@ -1005,23 +1034,35 @@ class Acceptor:
         self.exit_machine(root, 'other', occ, tags, fsm=root)
 
     def drain1(self, root):
-        if not root.queue:
-            return
-        nxt = self.peek()
-        cand = self.next_pending(root, nxt) if nxt is not None else None
-        head = root.queue[0]
-        if cand is None:
-            # invisible dispatch is impossible in this corpus: every dispatch leaves a record
+        """single-step variants dispatch exactly the oldest pending occurrence (C04)"""
+        self.completion_round(root)
+        while root.queue:
+            head = root.queue[0]
             if self.blocked(root, head.typ):
                 root.queue.pop(0)
+                if self.mp:
+                    return
                 return
-            self.reject({'C04'}, 'single-step', 'dispatch of %s' % head)
-        kind, occ = cand
-        if kind != 'q' or occ is not head:
-            self.reject({'C04'}, 'single-step-oldest', 'dispatch of %s' % head)
-        root.queue.pop(0)
-        res = self.step(root, occ, 'queue')
-        self.post_queued(root, res)
+            if self.mp and self.list_defers(root, head.typ, True):
+                # stays in the pool; the step goes to the next occurrence
+                rest = [o for o in root.queue if not self.list_defers(root, o.typ, True)]
+                if not rest:
+                    return
+                head = rest[0]
+            nxt = self.peek()
+            cand = self.next_pending(root, nxt) if nxt is not None else None
+            if cand is None:
+                self.reject({'C04'}, 'single-step', 'dispatch of %s' % head)
+            kind, occ = cand
+            if kind != 'q' or occ is not head:
+                self.reject({'C04'}, 'single-step-oldest', 'dispatch of %s' % head)
+            root.queue.remove(occ)
+            res = self.step(root, occ, 'queue')
+            # completion transitions triggered by the step belong to it (C10)
+            self.post_queued(root, res)
+            if self.mp and res == DF:
+                continue            # "only deferred" does not count as a processed event
+            return
 
 
 def parse_snap(rec):
